@@ -1,10 +1,10 @@
 SPECIFICATION Spec
 CONSTANTS
-  Versions = {"1.0", "1.1"}
+  Versions = {"1.1"}
   CTypes = {"default", "application/json; charset=utf-8", "image/png"}
   AEs = {"absent", "gzip", "identity"}
   Pres = {"none", "vary", "ce"}
-  Lens = {0, 1, 1023, 1024, 1025}
+  Lens = {0, 1, 1023, 1024}
   Fill = 97
   MaxOps = 3
 VIEW View
